@@ -48,6 +48,10 @@ pub fn variants(r: &mut Rng, f: &Option<String>) -> Vec<Option<String>> {
         v.push(Some(format!("{}x", s)));
         v.push(Some(format!("{}\0", s)));
         v.push(Some(format!(" {}", s)));
+        v.push(Some(format!("{}\n", s)));
+        v.push(Some(format!("{} ", s)));
+        v.push(Some(format!("\t{}", s)));
+        v.push(Some(format!("{}\u{a0}", s)));
         let flipped: String = s.chars().map(|c| if c.is_ascii_lowercase() { c.to_ascii_uppercase() } else { c.to_ascii_lowercase() }).collect();
         v.push(Some(flipped));
         if !s.is_empty() {
@@ -61,6 +65,10 @@ pub fn variants(r: &mut Rng, f: &Option<String>) -> Vec<Option<String>> {
     } else {
         v.push(Some("x".into()));
     }
+    // whitespace-only values are not "absent"
+    v.push(Some(" ".into()));
+    v.push(Some("\t".into()));
+    v.push(Some("\n".into()));
     v.push(Some(nonempty_text!(r, 10)));
     v
 }
@@ -80,7 +88,15 @@ fn gen_c05(ctx: &GenCtx, i: u64) -> Option<Run> {
     let assertion = if proto.has_assertion() { gen_opt_text(&mut r).map(|f| f.chars().take(10).collect::<String>()) } else { None };
     let msg = ascii!(r, r.usize(40));
     let opts = IssueOpts { proto, layer, key, footer: footer.clone(), assertion, now, message: msg.clone(), json_payload: Some(json!({"data": msg})), extra_claims: vec![] };
-    let t = issue(&mut rb, &mut r, opts);
+    let mut t = issue(&mut rb, &mut r, opts);
+    // builder layers: sometimes it is the 2nd or 3rd token of the same builder that travels
+    if t.builder.is_some() && r.chance(1, 3) {
+        for _ in 0..1 + r.usize(2) {
+            if let Some(t2) = rebuild(&mut rb, &mut r, &t) {
+                t = t2;
+            }
+        }
+    }
     let at = t.issued_at + r.range(1, HOUR - 2);
     let slow = matches!(proto, Proto::V3P);
     let mut vs = variants(&mut r, &footer);
@@ -97,7 +113,7 @@ fn gen_c05(ctx: &GenCtx, i: u64) -> Option<Run> {
         let mut control = plain_spec(&t, vlayer);
         control.default_validators = spec.default_validators;
         let v = rb.verifier(spec);
-        rb.push(Op::Deliver { msg: t.msg, to: v, now_ns: Ns(at), ticks: vec![], twin: false, control: Some(Box::new(control)) });
+        rb.push(Op::Deliver { msg: t.msg, to: v, now_ns: Ns(at), ticks: vec![], twin: false, control: Some(Box::new(control)), key: None });
     }
     // footer edits in transit, verifier expects F
     let vlayer = random_layer(&mut r);
@@ -112,6 +128,20 @@ fn gen_c05(ctx: &GenCtx, i: u64) -> Option<Run> {
     }
     for k in [-2, -1, 1, 2] {
         outs.push(rb.fault(t.msg, FaultKind::ShiftPayloadFooter { k }, None));
+    }
+    if let Some(f) = &footer {
+        // the footer segment replaced by every proper prefix and by extensions of the real footer
+        let chars: Vec<char> = f.chars().collect();
+        for n in 0..chars.len().min(if slow { 4 } else { 32 }) {
+            outs.push(rb.fault(t.msg, FaultKind::FooterReplace { text: chars[..n].iter().collect() }, None));
+        }
+        for ext in ["x", "\0", " ", "AAAA"] {
+            outs.push(rb.fault(t.msg, FaultKind::FooterReplace { text: format!("{}{}", f, ext) }, None));
+        }
+    }
+    // the footer *segment text* cut or extended by single base64 symbols
+    for text in ["A", "AA", "_", "="] {
+        outs.push(rb.fault(t.msg, FaultKind::Extend { text: text.to_string() }, None));
     }
     for s in [Seg::Footer] {
         outs.push(rb.fault(t.msg, FaultKind::Pad { seg: s.clone(), n: 1 }, None));
@@ -154,7 +184,14 @@ fn gen_c06(ctx: &GenCtx, i: u64) -> Option<Run> {
             let footer = gen_opt_text(&mut r).map(|f| f.chars().take(10).collect::<String>());
             let msg = ascii!(r, r.usize(40));
             let opts = IssueOpts { proto, layer, key, footer: footer.clone(), assertion: assertion.clone(), now, message: msg.clone(), json_payload: Some(json!({"data": msg})), extra_claims: vec![] };
-            let t = issue(&mut rb, &mut r, opts);
+            let mut t = issue(&mut rb, &mut r, opts);
+            if t.builder.is_some() && r.chance(1, 3) {
+                for _ in 0..1 + r.usize(2) {
+                    if let Some(t2) = rebuild(&mut rb, &mut r, &t) {
+                        t = t2;
+                    }
+                }
+            }
             let at = t.issued_at + r.range(1, HOUR - 2);
             let mut vs = variants(&mut r, &assertion);
             if slow {
@@ -168,7 +205,7 @@ fn gen_c06(ctx: &GenCtx, i: u64) -> Option<Run> {
                 let mut control = plain_spec(&t, vlayer);
                 control.default_validators = spec.default_validators;
                 let v = rb.verifier(spec);
-                rb.push(Op::Deliver { msg: t.msg, to: v, now_ns: Ns(at), ticks: vec![], twin: false, control: Some(Box::new(control)) });
+                rb.push(Op::Deliver { msg: t.msg, to: v, now_ns: Ns(at), ticks: vec![], twin: false, control: Some(Box::new(control)), key: None });
             }
             // re-split pairs: (footer, assertion) with the same concatenation
             let cat = format!("{}{}", footer.clone().unwrap_or_default(), assertion.clone().unwrap_or_default());
@@ -186,6 +223,38 @@ fn gen_c06(ctx: &GenCtx, i: u64) -> Option<Run> {
             }
         }
         // ---- non-storage
+        _ if (i / 3) % 4 == 3 => {
+            // crafted re-splits against length-prefix aliasing in the pre-authentication encoding: the
+            // block that moves from the assertion into the footer is LE64(len(tail)) repeated m times, so
+            // that a length prefix which aliases n and n + 8m makes both splits encode identically
+            let layer = Layer::Core;
+            let tail = if r.chance(1, 2) { "admin".to_string() } else { alnum!(r, 1 + r.usize(9)) };
+            let m = *r.pick(&[1usize, 2, 4, 16, 32, 64]);
+            let mut le = vec![0u8; 8];
+            le[0] = tail.len() as u8;
+            let block: String = String::from_utf8(le.repeat(m)).unwrap();
+            let f0 = if r.chance(1, 2) { "kid:1".to_string() } else { alnum!(r, tail.len()) };
+            let (tf, ta) = (Some(f0.clone()), Some(format!("{}{}", block, tail)));
+            let msg = ascii!(r, r.usize(30));
+            let opts = IssueOpts { proto, layer, key, footer: tf, assertion: ta, now, message: msg, json_payload: None, extra_claims: vec![] };
+            let t = issue(&mut rb, &mut r, opts);
+            // the attacker moves the block into the footer segment and presents the short assertion
+            let forged = rb.fault(t.msg, FaultKind::FooterReplace { text: format!("{}{}", f0, block) }, None);
+            for vlayer in ALL_LAYERS {
+                let spec = VerifierSpec { proto, layer: vlayer, key, footer: Some(format!("{}{}", f0, block)), assertion: Some(tail.clone()), default_validators: false, expect: vec![], expect_via_extend: false, validators: vec![], hash_seed: 0 };
+                let v = rb.verifier(spec);
+                rb.deliver(forged, v, now + 1000);
+                rb.deliver(t.msg, v, now + 1000);
+            }
+            // and the mirror image: block moves from the footer into the assertion
+            let (tf2, ta2) = (Some(format!("{}{}", f0, block)), Some(tail.clone()));
+            let opts2 = IssueOpts { proto, layer, key, footer: tf2, assertion: ta2, now, message: "m".into(), json_payload: None, extra_claims: vec![] };
+            let t2 = issue(&mut rb, &mut r, opts2);
+            let forged2 = rb.fault(t2.msg, FaultKind::FooterReplace { text: f0.clone() }, None);
+            let spec = VerifierSpec { proto, layer: Layer::Core, key, footer: Some(f0.clone()), assertion: Some(format!("{}{}", block, tail)), default_validators: false, expect: vec![], expect_via_extend: false, validators: vec![], hash_seed: 0 };
+            let v = rb.verifier(spec);
+            rb.deliver(forged2, v, now + 1000);
+        }
         _ => {
             let footer = gen_opt_text(&mut r).map(|f| f.chars().take(10).collect::<String>());
             let msg = ascii!(r, r.usize(80));
